@@ -16,6 +16,7 @@ import (
 	"sync"
 	"time"
 
+	"hop.computer/hop/transport"
 	"hop.computer/hop/tubes"
 
 	"verif/harness/bub"
@@ -113,6 +114,99 @@ func genC09(r *vh.Runner) {
 		r.Case(fmt.Sprintf("accept-backlog/%d", i), map[string]any{"rep": i}, func(c *vh.Case) {
 			c.Bubble(func() { backlogRun(r, c, i) })
 		})
+	}
+	no := r.Pick(6, 120)
+	for i := 0; i < no; i++ {
+		r.Case(fmt.Sprintf("oversize-message/%d", i), map[string]any{"case": i}, func(c *vh.Case) {
+			c.Bubble(func() { oversizeRun(r, c, i) })
+		})
+	}
+}
+
+// oversizeRun: single messages around and above what one frame and one
+// transport message can carry (32768, 65535 and 65536+k bytes) are written on
+// an unreliable tube over a network that, like a real transport connection,
+// refuses messages above transport.MaxPlaintextSize. The write may fail and the
+// message may be lost - the muxer may even stop - but whatever the other end
+// reads is one of the messages written, whole.
+func oversizeRun(r *vh.Runner, c *vh.Case, i int) {
+	rng := vh.NewRand(r.Seed, "c09-oversize", i)
+	mp := newMuxPair(2 * time.Hour)
+	defer mp.stop()
+	mp.net.A.LimitWrites(transport.MaxPlaintextSize)
+	mp.net.B.LimitWrites(transport.MaxPlaintextSize)
+	w, rd := mp.a, mp.b
+	if rng.Bool() {
+		w, rd = mp.b, mp.a
+	}
+	var acc []accepted
+	var amu sync.Mutex
+	go acceptLoop(rd, &acc, &amu)
+	cr, err := w.CreateUnreliableTube(tubes.TubeType(rng.Intn(256)))
+	if err != nil {
+		c.Violate("C09:create-fails:oversize-message", map[string]any{"err": err.Error()})
+		return
+	}
+	bub.Settle(time.Second)
+	amu.Lock()
+	if len(acc) != 1 || acc[0].reliable {
+		amu.Unlock()
+		c.Violate("C09:opened-tube-never-offered-or-offered-with-other-type:oversize-message", map[string]any{"offered": len(acc)})
+		return
+	}
+	ac := acc[0].tube.(*tubes.Unreliable)
+	amu.Unlock()
+	key := rng.U64()
+	big := []int{32768, 32769, 65535, 65536, 65537, 65536 + 100, 65536 + 1400, 65536 + 9000, 65536 + 32768, 65536 + 32769, 131072, 131072 + 5}
+	sizes := []int{100, 1400}
+	first := i % len(big)
+	sizes = append(sizes, big[first]-16, 300, big[rng.Intn(len(big))]-16, 1)
+	want := map[string]bool{}
+	api := rng.Intn(3)
+	for k, n := range sizes {
+		if n < 0 {
+			n = 0
+		}
+		m := umsg(key, i, k, n)
+		want[string(m)] = true
+		switch api {
+		case 0:
+			err = cr.WriteMsg(m)
+		case 1:
+			_, err = cr.Write(m)
+		default:
+			_, _, err = cr.WriteMsgUDP(m, nil, nil)
+		}
+		r.Count("oversize_family_writes", 1)
+		if err != nil {
+			r.Count("oversize_family_writes_refused", 1)
+		}
+	}
+	buf := make([]byte, 1<<18)
+	got := 0
+	for {
+		ac.SetReadDeadline(time.Now().Add(500 * time.Millisecond))
+		n, err := ac.ReadMsg(buf)
+		if err != nil {
+			break
+		}
+		if !want[string(buf[:n])] {
+			src := "not-a-written-message"
+			if n >= 8 && bytes.Equal(buf[:4], []byte("UMSG")) {
+				src = "altered-or-fragmented-message"
+			} else if n == 0 {
+				src = "zero-length-message-nobody-wrote"
+			}
+			c.Violate("C09:unreliable-delivers:"+src+":oversize-message", map[string]any{"len": n, "head": vh.HexCap(buf[:n], 16), "sizes": sizes})
+			return
+		}
+		delete(want, string(buf[:n])) // each written message at most once
+		got++
+		r.Count("unreliable_messages_checked", 1)
+	}
+	r.Count("evaluations", int64(len(sizes)))
+	if got >= 2 { // the two small messages written first arrived: the tube worked
+		r.Nontrivial(fmt.Sprintf("oversize|%d|%d|%d", i, first, api))
 	}
 }
 
